@@ -871,6 +871,43 @@ put_char_space(struct caption *cc, cc_channel *ch)
 	put_char (cc, ch, c);
 }
 
+/* Roll-up mode: moves the window with its text so that @a row1
+   becomes its top row. The cursor stays in its column on the base row. */
+static void
+move_window(struct caption *cc, cc_channel *ch, int row1)
+{
+	vbi_page *spg = ch->pg + (ch->hidden ^ 1);
+	vbi_char *line1;
+	int begin, end, i;
+
+	if (row1 == ch->row1)
+		return;
+
+	begin = ch->row1 * COLUMNS;
+	end = begin + ch->roll * COLUMNS;
+
+	memmove(spg->text + row1 * COLUMNS, spg->text + begin,
+		sizeof(*spg->text) * ch->roll * COLUMNS);
+
+	for (i = begin; i < end; i++)
+		if (i < row1 * COLUMNS || i >= (row1 + ch->roll) * COLUMNS)
+			spg->text[i] = cc->transp_space[0];
+
+	/* Our copy of the base row. */
+	line1 = ch->pg[ch->hidden].text + (row1 + ch->roll - 1) * COLUMNS;
+
+	memcpy(line1, ch->line, sizeof(*line1) * COLUMNS);
+
+	for (i = 0; i < COLUMNS; i++)
+		ch->line[i] = cc->transp_space[0];
+
+	ch->row1 = row1;
+	ch->row = row1 + ch->roll - 1;
+	ch->line = line1;
+
+	render(spg, -1);
+}
+
 static inline cc_channel *
 switch_channel(struct caption *cc, cc_channel *ch, int new_chan)
 {
@@ -942,34 +979,9 @@ caption_command(vbi_decoder *vbi, struct caption *cc,
 			if (row1 < 0)
 				row1 = 0;
 
-			if (row1 != ch->row1) {
-				vbi_page *spg = ch->pg + (ch->hidden ^ 1);
-				vbi_char *line1 = ch->line
-					+ (row1 - ch->row1) * COLUMNS;
-				int begin = ch->row1 * COLUMNS;
-				int end = begin + ch->roll * COLUMNS;
-
-				/* 47 CFR 15.119 (f)(1)(ii): The window moves
-				   with its text. */
-				memmove(spg->text + row1 * COLUMNS,
-					spg->text + begin,
-					sizeof(*spg->text) * ch->roll * COLUMNS);
-
-				for (i = begin; i < end; i++)
-					if (i < row1 * COLUMNS
-					    || i >= (row1 + ch->roll) * COLUMNS)
-						spg->text[i] = cc->transp_space[0];
-
-				/* Our copy of the base row. */
-				memcpy(line1, ch->line, sizeof(*line1) * COLUMNS);
-
-				for (i = 0; i < COLUMNS; i++)
-					ch->line[i] = cc->transp_space[0];
-
-				ch->row1 = row1;
-
-				render(spg, -1);
-			}
+			/* 47 CFR 15.119 (f)(1)(ii): The window moves
+			   with its text. */
+			move_window(cc, ch, row1);
 
 			set_cursor(ch, 1, ch->row1 + ch->roll - 1);
 		} else if (ch->mode == MODE_TEXT) {
@@ -1097,13 +1109,17 @@ caption_command(vbi_decoder *vbi, struct caption *cc,
 				if (ch->roll == roll)
 					return;
 
+				/* EIA 608-B Annex C.4: A base row too close
+				   to the top for the new depth moves down. */
+				row1 = ch->row1 + ch->roll - roll;
+
+				if (row1 < 0)
+					move_window(cc, ch, ch->row1 - row1);
+
 				/* 47 CFR 15.119 (f)(1)(iv), (ix): The text and
 				   the cursor stay where they are, a smaller
 				   window loses its top rows. */
 				row1 = ch->row1 + ch->roll - roll;
-
-				if (row1 < 0)
-					row1 = 0;
 
 				if (row1 > ch->row1) {
 					vbi_page *spg = ch->pg + (ch->hidden ^ 1);
